@@ -322,3 +322,7 @@ def run(ctx):
     # looked at: the greedy-shape rule of C06
     from .C06 import r6_3
     r6_3(ctx)
+    # "a free worker who is eligible for a higher-priority task ... is never given to a lower-priority task": a worker whom the
+    # allocator wrongly judges ineligible for the higher task is passed on to the lower one -- the eligibility tests of C04
+    from .C04 import r4_1
+    r4_1(ctx)
